@@ -150,6 +150,13 @@ Proof. exact (header_signing_any_injective_l h1 h2). Qed.
 Theorem header_view_with_base_fee h : wfp c_header h -> x_basefee (h_ext h) <> None -> header_signed_view h = header_sign_tuple h.
 Proof. exact (view_basefee h). Qed.
 
+(* same hash and id after re-encoding: decoding Go's re-encoding yields the same Go object (even inside the F2 class), and
+   the hash / id preimages depend on the parse tree only through that object *)
+Theorem tx_reencode_same_object b t : go_decode_tx b = Some t ->
+  go_decode_tx (go_reencode_tx t) = Some (norm_tx t) /\
+  go_signing_tx (norm_tx t) = go_signing_tx t /\ go_marshal_tx (norm_tx t) = go_marshal_tx t.
+Proof. exact (tx_reencode_same_object_l b t). Qed.
+
 (* the final corollaries, with Blake2b as an opaque function H and its collision-freeness as the NAMED hypothesis H_inj.
    Transaction.ID() = H(signingHash ++ origin) only when the signature recovers (origin = Some o; otherwise the zero id, for
    which nothing is claimed); Header.ID() additionally overwrites the first four bytes of H(signingHash ++ signer) with the
@@ -284,6 +291,7 @@ Print Assumptions block_exception_is_lifted_tx_class.
 Print Assumptions tx_decode_canonical_statement_refuted.
 Print Assumptions receipt_unmarshal_canonical.
 Print Assumptions receipt_unmarshal_roundtrip.
+Print Assumptions tx_reencode_same_object.
 Print Assumptions go_signing_injective.
 Print Assumptions go_marshal_injective.
 Print Assumptions header_signing_any_injective.
